@@ -580,6 +580,8 @@ def classify_entry(rel, cls, fn, site_ids, methods):
         # dest = self.<maker>(..); dest.copyDataFromGlyph(P); return dest
         if len(copies) != 1:
             err("copied more than once")
+        if forwards:
+            err("the object is copied and handed on as well", forwards[0][0])
         dest = copies[0][1]
         makers = [n for n in ast.walk(fn) if isinstance(n, ast.Assign) and len(n.targets) == 1
                   and isinstance(n.targets[0], ast.Name) and n.targets[0].id == dest]
